@@ -75,7 +75,7 @@ def mc_plan(tier):
 def _mc_one(item):
     name, params, mode, layout, tier = item
     key = hashlib.sha256((rv.spec_hash() + json.dumps(params, sort_keys=True)).encode()).hexdigest()[:20]
-    cdir = rv.ensure_dir(os.path.join(rv.WORK, "mc_cache"))
+    cdir = rv.ensure_dir(rv.MC_CACHE)
     cfile = os.path.join(cdir, "%s-%s.json" % (name, key))
     if os.path.exists(cfile):
         with open(cfile) as f:
